@@ -28,6 +28,16 @@ CHECKS = {
                 "clears the cofactor before encoding and the raw Elligator map is only reachable from such functions (R7.4). Field/scalar "
                 "arithmetic exactness and RFC vectors are not decided.",
     },
+    "C08": {
+        "engine": "PathAI (E1) + sibling agreement (E7)",
+        "technique": "interval analysis from branch facts vs header constants; tri-state / decode-before-answer path analysis",
+        "text": "Static, for all inputs: at every call into an Argon2/scrypt core and at every success exit of the raw and string APIs each "
+                "limited parameter lies within the [MIN, MAX] constants folded from sodium.h (reports the genuine gap F2: the scrypt API never "
+                "tests opslimit/memlimit; listed in known_findings.txt); generic dispatchers only forward arguments to limit-checked "
+                "functions; both low-level scrypt backends establish N power of two in [2,2^32-1], r,p != 0, r*p < 2^30 and agree on all "
+                "guards; needs_rehash returns exactly -1/0/1, answers 0/1 only after successful decoding, 0 only with an equality fact per "
+                "compared parameter. Hash outputs and the string grammar are not decided.",
+    },
     "C09": {
         "engine": "PathAI (E1) + sibling agreement (E7)",
         "technique": "typestate/effect analysis on IR paths + role-normalised effect-signature comparison of push/pull",
